@@ -574,7 +574,7 @@ proof fn lemma_frame_split(s: Seq<u8>)
 }
 
 //@@ impl src/xls.rs Record
-//@@ fn src/xls.rs Record::continue_record props=C02 ret=b
+//@@ fn src/xls.rs Record::continue_record props=C02,C12,C19 ret=b
 //@@ sig
     ensures
         //# C02.continue_next_chunk
